@@ -100,6 +100,12 @@ def oracle(c, o):
                                   "but get serves value %s from the read cache" % (i, k, post["gets"][k])))
                     if name == "put_local" and out["far"] != far:
                         v.append(("max-records-reports-wrong-farthest", "step %d: MaxRecords arm reports farthest %s, true farthest %d" % (i, out["far"], far)))
+            elif len(pre_idx) >= cap and k in pre_idx and cap >= 1 and not ok:
+                # the refusal test is STRICT (refused iff strictly farther than the farthest held record): a held key
+                # -- the farthest one included -- is never farther than the farthest, so its overwrite is never refused
+                far = max(pre_idx, key=lambda x: dist[x])
+                v.append(("held-key-overwrite-refused-at-capacity", "step %d: full store (%d of %d) refused the overwrite of HELD key %d "
+                          "(farthest held key: %d) with MaxRecords" % (i, len(pre_idx), cap, k, far)))
             elif len(pre_idx) < cap and not ok:
                 v.append(("refused-below-capacity", "step %d: put of key %d refused with %d of %d records held" % (i, k, len(pre_idx), cap)))
         # 3. capacity bound: records held <= capacity + writes still in flight
@@ -174,7 +180,19 @@ def fill_case(rng, cap, nk, extra_ops, cache=25, tag="fill"):
     for k in order[:cap]:
         ops += [{"op": "put", "k": k, "v": rng.randrange(4), "t": 0}, {"op": "settle"}]
     ops += extra_ops(order)
-    return mk_case(rng, keys, vals, ops, cap, cache, tag)
+    cc = mk_case(rng, keys, vals, ops, cap, cache, tag)
+    # re-put the farthest of the initially held keys with new bytes (validated put and PutLocalRecord arm): at capacity
+    # this is the boundary case of the admission test (distance equal to the farthest distance)
+    peer = bytes.fromhex(cc["cfg"]["peer"])
+    held = order[:cap]
+    far = max(held, key=lambda k: py_distance(peer, keys[k]))
+    pre = []
+    for k in held:
+        pre += [{"op": "put", "k": k, "v": rng.randrange(4), "t": 0}, {"op": "settle"}]
+    cc["ops"] = pre + [{"op": "put", "k": far, "v": 1 + rng.randrange(3), "t": 0}, {"op": "settle"},
+                       {"op": "put_local", "k": far, "v": rng.randrange(4)}, {"op": "settle"}] + cc["ops"][len(pre):] + [
+                       {"op": "put", "k": far, "v": rng.randrange(4), "t": 0}, {"op": "settle"}]
+    return cc
 
 
 def gen(ctx):
